@@ -38,10 +38,13 @@ def lr_worker(job):
     out["terms"] = impl.dump_terms(gi)
     out["stop"] = impl.stop_id(gi)
     out["table"] = impl.dump_table(p.table, gi)
+    n_to = 0
     for w in inputs:
         r = {"rx": impl.rx_matrix(gi, w)}
+        if n_to >= 2:
+            break
         try:
-            with impl.time_limit(10):
+            with impl.time_limit(3):
                 t = p.parse(w)
             r["kind"] = "ok"
             r["tree"] = impl.node_sx(t, gi)
@@ -53,6 +56,8 @@ def lr_worker(job):
             r["pos"] = e.location.start_position
         except BaseException as e:  # noqa
             r["kind"] = "exc:" + impl.exc_kind(e)
+            if r["kind"] == "exc:Timeout":
+                n_to += 1
         out["res"][w] = r
     return out
 
@@ -101,9 +106,13 @@ def run(ctx):
                               ("pre_list", "S: S 'a' | 'a';", "ab")]:
         for o in opts:
             jobs.append((name, text, list(gramgen.all_strings(list(alpha), 5)), o))
+    import time
+    tt = {}
+    t0 = time.time()
     with mp.Pool(common.NPROC) as pool:
         results = pool.map(glrcases.worker, jobs, chunksize=1)
-    st = {"grammars": 0, "inputs": 0, "forests": 0, "rejects": 0, "forest_ok_checked": 0, "compared": 0,
+    tt["impl_glr"] = round(time.time() - t0, 1)
+    st = {"timing_s": tt, "grammars": 0, "inputs": 0, "forests": 0, "rejects": 0, "forest_ok_checked": 0, "compared": 0,
           "multi_prefix_cases": 0, "missing": 0, "dups": 0, "baseline_same": 0, "cyclic_or_many": 0,
           "lr_parses": 0, "lr_accepts": 0, "exceptions": {}}
     wsl = [ord(ch) for ch in glrcases.WS]
@@ -122,7 +131,9 @@ def run(ctx):
                 if c.get("solutions", 0) <= 4 * CAP:
                     mcases.append((7, [c["nodes"], 4 * CAP]))
                     meta.append(("trees", r, c))
+    t1 = time.time()
     outs = common.model_run(mcases)
+    tt["model"] = round(time.time() - t1, 1)
     nx, xok, xlog = common.coq_crosscheck("C17", mcases, outs, rng, sample=25 if quick else 80)
     if not xok:
         ctx.violation("extraction cross-check failed", {"log": xlog}, no_input=True)
@@ -144,8 +155,10 @@ def run(ctx):
                 rjobs.append((r["grammar"], c["rx"], c["input"], ftr.get((id(r), c["input"])),
                               c["status"] == "SyntaxError"))
                 rkeys.append((id(r), c["input"]))
+    t1 = time.time()
     with mp.Pool(common.NPROC) as pool:
         rres = dict(zip(rkeys, pool.map(_ref_job, rjobs, chunksize=8)))
+    tt["reference"] = round(time.time() - t1, 1)
     for r in results:
         if r["gerr"]:
             continue
@@ -261,8 +274,10 @@ def run(ctx):
         rr = gramgen.random_grammar(rng, max_nt=3, max_alts=3, max_rhs=3)
         if rr:
             ljobs.append(("rand%d" % i, rr[1], list(gramgen.all_strings(["a", "b"], 4))))
+    t1 = time.time()
     with mp.Pool(common.NPROC) as pool:
         lres = pool.map(lr_worker, ljobs, chunksize=1)
+    tt["impl_lr"] = round(time.time() - t1, 1)
     lm, lmeta = [], []
     for r in lres:
         if r["gerr"]:
